@@ -4,6 +4,14 @@ import json, os, sys
 HERE = os.path.dirname(os.path.dirname(os.path.abspath(__file__)))
 
 CHECKS = {
+ "C10": dict(level="other", design="4.8",
+   technique="forwarding/shape/operator-name agreement rules, polynomial identity of the mul/div formulas in (a,b,c,d), Annex-G idiom rule, closure-kind compile witnesses",
+   text="Decides structural clauses only: the 24 elementary-function wrappers call the same-named std function on std::complex<value_type>(x) in order; "
+        "==/!=/unary +/- have their defining shape; each binary operator X builds its result from the left operand and applies X= with the right; compound "
+        "scalar forms touch exactly the parts complex arithmetic says; member assignments are (real<-real, imag<-imag) symmetric; the textbook and Annex G "
+        "mul/div (first attempt, recovery, scaled quotient) compute ac-bd, ad+bc, (ac+bd)/(cc+dd), (bc-ad)/(cc+dd) as polynomials; Annex G boxing idioms "
+        "classify the component they box, the divisor scale is logb(max(|c|,|d|)), scalbn exponents agree; all closure-kind combinations compile.",
+   note="Rounding, special-value outcomes and scaling accuracy are numeric and NOT decided; trusts the polynomial evaluator and clang/g++."),
  "C11": dict(level="other", design="4.9",
    technique="sibling-storage pairing rule over every member/constructor pattern of both container families, ==/!= shape, paired-iterator lockstep (symbolic positions), default-initialisation witnesses",
    text="Decides the lockstep structure: in each of the ~45 members/constructors of xoptional_sequence/vector/array and xcomplex_sequence/vector/array "
